@@ -1023,6 +1023,13 @@ def unraced_failures(sc, real):
         if k == 'emit' and (op['cb'] is None or (op['via'] is not None and op['to'] is not None
                                                  and 'list' not in op['to'])):
             raced = spec.membership_in_flight()
+            # membership operations issued through different hosts are not linearised by the channel (a
+            # delayed remote leave_room can land after a later local enter_room): where that has already
+            # made the hosts' tables differ from the issue-order book, the emit is not "unraced"
+            rooms_ = emit_rooms(op['to'])
+            if set(spec.all_connected(op['ns'])) != set(ref.conn[op['ns']]) or any(
+                    spec.members(op['ns'], r) != ref.mem[op['ns']][r] for r in (rooms_ or [])):
+                raced = True
             exp = ref.expected(op['ns'], emit_rooms(op['to']), skip_list(op['skip']))
             open_emits.append([op['idx'], len(spec.chan), exp, raced])
             ev_idx[payload(op)[0]] = op['idx']
@@ -1165,8 +1172,8 @@ def run(ctx):
         'python-engineio queues a packet on the addressed socket; one transport lives on one host',
     ])
     rng = ctx.rng
-    n_hist = ctx.scale(400, 8000)
-    deadline = ctx.t0 + ctx.scale(55, 560)
+    n_hist = ctx.scale(1400, 20000)
+    deadline = ctx.t0 + ctx.scale(60, 560)
     drv = C.Driver('pubsub')
     evals = validated = failures = 0
     nontriv = set()
